@@ -78,10 +78,15 @@ def handle_violations(adapter, seed, violations, findings, tier="quick"):
     """Classify, minimise, write and confirm replay files.  Returns (n_unlisted, lines)."""
     lines = []
     by_sig = {}
+    spare = {}
     for idx, vj in violations:
-        by_sig.setdefault(vj["signature"], (idx, vj))
+        if vj["signature"] in by_sig:
+            spare.setdefault(vj["signature"], []).append((idx, vj))
+        else:
+            by_sig[vj["signature"]] = (idx, vj)
     unlisted = 0
     known_seen = set()
+    not_reproduced = []
     for sig, (idx, vj) in sorted(by_sig.items(), key=lambda kv: kv[1][0]):
         known = core.match_known(adapter.prop, sig, findings)
         if known is not None:
@@ -132,9 +137,13 @@ def handle_violations(adapter, seed, violations, findings, tier="quick"):
             path = core.write_replay(adapter.prop, seed, idx, rerun, vj, minimised_from={"note": "run-range replay"})
             ok2, out2 = core.confirm_replay_in_fresh_process(adapter.prop, path, sig)
             if not ok2:
-                lines.append("HARNESS-ERROR: replay of %s did not reproduce %s in a fresh process:\n%s\n%s"
-                             % (path, sig, out[-800:], out2[-800:]))
-                raise core.HarnessError("\n".join(lines))
+                # Neither the case nor its batch prefix fails again in a fresh process: the failure depended on
+                # something outside the simulator's control (e.g. the address of a freed object).  It is NOT
+                # reported as a violation; other violating runs are still examined.
+                not_reproduced.append("NOT-REPRODUCED property=%s signature=%s run_index=%d (seen once, not on replay)"
+                                      % (adapter.prop, sig, idx))
+                unlisted -= 1
+                continue
             lines.append("note: this violation needs state left by earlier runs in the same process; replay re-executes "
                          "runs %d..%d" % (lo, idx))
         lines.append("violation: %s" % vj["message"][:600])
@@ -142,6 +151,11 @@ def handle_violations(adapter, seed, violations, findings, tier="quick"):
                      % (adapter.prop, path, sig, idx, seed))
     if unlisted > 6:
         lines.append("(%d further distinct violation signatures not minimised)" % (unlisted - 6))
+    if not_reproduced:
+        lines.extend(not_reproduced)
+        if unlisted == 0:
+            # every failure seen was irreproducible: that is a defect of the run, not a verdict
+            raise core.HarnessError("\n".join(lines))
     return unlisted, lines
 
 
